@@ -23,7 +23,9 @@ RULE = ('lib cases: a list of 1..4 inputs, each (points: None / empty Nx3 / empt
         'merge_points3d_and_observations and merge_points3d are run. Enumerated: every pattern of {no points, 0x3, 0x6, Nx3, '
         'Nx6} x {no observations, observations} over 1..2 inputs (quick) / 1..3 inputs (thorough). tool cases: 1..4 real '
         'dataset directories (sensors, records_camera, keypoints / descriptors / global features / matches each kept in a '
-        'directory or a tar archive per input and per type, points3d.txt, observations.txt), merged by merge_kaptures with '
+        'directory - plain files, or relative / absolute symbolic links to a store elsewhere, or the type directory itself a link; '
+        'the output lies at another depth than the inputs - or in a '
+        'tar archive, per input and per type, points3d.txt, observations.txt), merged by merge_kaptures with '
         'either driver and a random skip list; the output directory is read back. remerge cases: the four merge_*_collections '
         'functions (library API) merge 1..3 inputs (directory and tar sources) into a destination that is NOT empty: an earlier merge of an '
         'earlier state of the same inputs (files recomputed with the same size / another size / unchanged / absent) and/or stale files '
@@ -158,6 +160,12 @@ def _gen_features(rng, images, malformed=False):
                 k = rng.choice(sorted(files))
                 files[k] = _rand_bytes(rng, unit * rng.randint(0, 2) + rng.randint(1, unit - 1)) if unit > 1 else files[k]
             feats[kind][ft] = {'tar': tar, 'dtype': dt, 'dsize': ds, 'files': files}
+            if not tar and rng.random() < 0.4:
+                # directory storage where files are symbolic links to a store elsewhere (relative or absolute),
+                # or where the directory of the feature type itself is a link
+                feats[kind][ft]['links'] = {k: rng.choice(['rel', 'rel', 'abs']) for k in sorted(files) if rng.random() < 0.7}
+                if rng.random() < 0.3:
+                    feats[kind][ft]['dirlink'] = rng.choice(['rel', 'abs'])
     return feats
 
 
@@ -395,6 +403,18 @@ def _build_dataset(root, x):
         k.observations = kapture.Observations()
         for p, t, img, fi in x['obs']:
             k.observations.add(p, t, img, fi)
+    store = root + '_store'          # a "shared features store" outside the dataset, reached through symbolic links
+
+    def link(target, where, how):
+        os.makedirs(os.path.dirname(where), exist_ok=True)
+        # relative to where the link physically lives (its directory may itself be reached through a link)
+        os.symlink(target if how == 'abs' else os.path.relpath(target, os.path.realpath(os.path.dirname(where))), where)
+    for kind in KINDS:
+        for t, d in f[kind].items():
+            if not d['tar'] and d.get('dirlink'):      # the whole directory of that feature type is a link
+                real = os.path.join(store, 'dirs', dirs[kind], t)
+                os.makedirs(real, exist_ok=True)
+                link(real, os.path.join(root, dirs[kind], t), d['dirlink'])
     kcsv.kapture_to_dir(root, k)
     for kind in KINDS:
         for t, d in f[kind].items():
@@ -411,6 +431,11 @@ def _build_dataset(root, x):
             else:
                 for name, hx in d['files'].items():
                     fp = os.path.join(tdir, _relname(kind, name, ext, sep))
+                    how = (d.get('links') or {}).get(name)
+                    if how:                            # the file is a relative / absolute link into the store
+                        real = os.path.join(store, 'files', dirs[kind], t, _relname(kind, name, ext, sep))
+                        link(real, fp, how)
+                        fp = real
                     os.makedirs(os.path.dirname(fp), exist_ok=True)
                     with open(fp, 'wb') as fh:
                         fh.write(bytes.fromhex(hx))
@@ -475,9 +500,12 @@ def _read_output(out):
                     rel = os.path.relpath(full, out).replace('\\', '/')
                     if os.path.dirname(full) == os.path.join(base, t) and fn.endswith('.txt'):
                         continue            # keypoints.txt / descriptors.txt / global_features.txt (type description)
-                    with open(full, 'rb') as fh:
-                        res['files'].append([rel, fh.read().hex()])
-    res['files'].sort()
+                    try:                    # content as a reader gets it through that path (links are followed)
+                        with open(full, 'rb') as fh:
+                            res['files'].append([rel, fh.read().hex()])
+                    except OSError:
+                        res['files'].append([rel, None])         # dangling link / not a readable file
+    res['files'].sort(key=lambda e: e[0])
     return res
 
 
@@ -494,7 +522,7 @@ def _run_tool(case, ctx):
         _build_dataset(r, x)
         roots.append(r)
     loaded = [_load_input(r, x, case['skip']) for r, x in zip(roots, case['inputs'])]
-    out = os.path.join(base, 'out')
+    out = os.path.join(base, 'merged', 'deeper', 'out')      # not at the depth of the inputs: relative links must not be copied verbatim
     res = {'loaded': loaded}
     try:
         kapture_merge.merge_kaptures(roots, out, keep_sensor_ids=bool(case['keep_ids']), skip=list(case['skip']), force=True)
@@ -558,7 +586,7 @@ def _run_remerge(case, ctx):
     shutil.rmtree(base, ignore_errors=True)
     os.makedirs(base)
     logging.getLogger('kapture').setLevel(logging.ERROR)
-    out = os.path.join(base, 'out')
+    out = os.path.join(base, 'merged', 'deeper', 'out')
     os.makedirs(out)
     res = {}
     if case['prior']:
@@ -701,6 +729,8 @@ def oracle(case, obs):
         for p in src:
             if p not in got:
                 return 're-merge: a feature or match file of an input is missing from the merged dataset'
+            if got[p] is None:
+                return 're-merge: a merged feature or match file cannot be read (dangling link)'
             if got[p] not in src[p]:
                 return 're-merge: a merged feature or match file is not byte-identical to its source'
         return None
@@ -744,6 +774,8 @@ def oracle(case, obs):
         if p not in got:
             return 'tool: a feature or match file of an input is missing from the merged dataset'
     for p, b in got.items():
+        if b is None:
+            return 'tool: a merged feature or match file cannot be read (dangling link)'
         if p not in src:
             return 'tool: the merged dataset has a feature or match file that no input has'
         if b not in src[p]:
@@ -786,9 +818,9 @@ def encode(case, obs):
     if case['mode'] == 'remerge':
         files = kv.clist(kv.clist('(mkF %s %s %s %s)' % (kv.cstr(e['path']), kv.cbool(e['tar']), kv.cz(e['unit']),
                                                           kv.cstr(bytes.fromhex(e['data']))) for e in es) for es in obs['files'])
-        dest = kv.clist(kv.cpair(kv.cstr(p), kv.cstr(bytes.fromhex(b))) for p, b in obs['dest'])
+        dest = kv.clist(kv.cpair(kv.cstr(p), kv.cstr(bytes.fromhex(b))) for p, b in obs['dest'] if b is not None)
         c_o = 'None' if 'exc' in obs else '(Some %s)' % kv.clist(kv.cpair(kv.cstr(p), kv.cstr(bytes.fromhex(b)))
-                                                                 for p, b in obs['out'])
+                                                                 for p, b in obs['out'] if b is not None)
         return '(CaseRemerge %s %s %s)' % (dest, files, c_o)
     inputs = obs['loaded']
     files = kv.clist(kv.clist('(mkF %s %s %s %s)' % (kv.cstr(e['path']), kv.cbool(e['tar']), kv.cz(e['unit']),
@@ -799,7 +831,7 @@ def encode(case, obs):
         o = obs['out']
         c_pts = 'None' if o['pts'] is None else '(Some %s)' % kv.cpair(kv.cz(o['pts']['w']), kv.clist(_c_row(r) for r in o['pts']['rows']))
         c_obs = 'None' if o['obs'] is None else '(Some %s)' % _c_tuples(o['obs'])
-        c_files = kv.clist(kv.cpair(kv.cstr(p), kv.cstr(bytes.fromhex(b))) for p, b in o['files'])
+        c_files = kv.clist(kv.cpair(kv.cstr(p), kv.cstr(bytes.fromhex(b))) for p, b in o['files'] if b is not None)
         c_o = '(Some %s)' % kv.cpair(c_pts, c_obs, c_files)
     return '(CaseTool %s %s %s %s %s)' % (kv.cbool('points3d' in case['skip']), kv.cbool('observations' in case['skip']),
                                           _c_inputs(inputs), files, c_o)
@@ -812,7 +844,7 @@ def _overwrites(obs):
     for es in obs['files']:
         for e in es:
             src.setdefault(e['path'], []).append(e['data'])
-    return [(p, b) for p, b in obs['dest'] if p in src and b not in src[p]]
+    return [(p, b or '') for p, b in obs['dest'] if p in src and b not in src[p]]
 
 
 def nontrivial(case, obs):
